@@ -49,15 +49,15 @@ type structTags struct {
 
 type unpackShape struct {
 	Func           string   `json:"func"`
-	RangeKind      string   `json:"range_kind"`      // kind of the (single) range loop
-	RangeExpr      string   `json:"range_expr"`      // what it ranges over
-	LowersInput    bool     `json:"lowers_input"`    // strings.ToLower applied to the string parameter
-	LowersName     bool     `json:"lowers_name"`     // strings.ToLower applied to the table entry
-	Comparisons    []string `json:"comparisons"`     // the == comparisons inside the loop
-	TailIsError    bool     `json:"tail_is_error"`   // the statement after the loop is `return <error constructor>(…)`
-	Tail           string   `json:"tail"`            // source text of the last statement
-	StoresInLoop   []string `json:"stores_in_loop"`  // stores through the receiver inside the loop
-	StoresOutside  []string `json:"stores_outside"`  // stores through the receiver outside the loop
+	RangeKind      string   `json:"range_kind"`       // kind of the (single) range loop
+	RangeExpr      string   `json:"range_expr"`       // what it ranges over
+	LowersInput    bool     `json:"lowers_input"`     // strings.ToLower applied to the string parameter
+	LowersName     bool     `json:"lowers_name"`      // strings.ToLower applied to the table entry
+	Comparisons    []string `json:"comparisons"`      // the == comparisons inside the loop
+	TailIsError    bool     `json:"tail_is_error"`    // the statement after the loop is `return <error constructor>(…)`
+	Tail           string   `json:"tail"`             // source text of the last statement
+	StoresInLoop   []string `json:"stores_in_loop"`   // stores through the receiver inside the loop
+	StoresOutside  []string `json:"stores_outside"`   // stores through the receiver outside the loop
 	ToLowerCallees []string `json:"to_lower_callees"` // fully qualified callee of each lower-casing call
 }
 
